@@ -267,18 +267,37 @@ def gen_powers_random(tu):
         # each BigInt<64>::random draws a fresh 64-bit value; the rejection loops may retry (explored for the first rounds)
         orig = dom.big_method
 
+        tested = []           # digit tuples that went into an acceptance test  y < r
+
         def big_method(I_, f_, this_, args_):
             if f_.name == "random":
                 dom.tries += 1
-                if dom.tries > 5:
-                    raise Abandon()          # retry depth: every accepted sample is a fresh draw, deeper retries add nothing
+                # retry depth: explored are (a) no outer retry with at most one digit retry (<= 5 draws) and (b) exactly one outer retry without digit
+                # retries (8 draws); deeper retries repeat the same code on fresh draws
+                if dom.tries > (8 if tested else 5):
+                    raise Abandon()
                 this_.val = dom.fresh_scalar("draw", 0, 1 << 64)
                 return None
             return orig(I_, f_, this_, args_)
         dom.big_method = big_method
+        orig_free = dom.free
+
+        def free(I_, f_, this_, args_):
+            # the acceptance test  compare(y, r): remember which digit tuple it judged
+            if f_.name == "compare" and len(args_) == 2 and getattr(args_[0], "type", "") == "BigInt<256>":
+                tested.append(tuple(repr(PP(c.val)) for c in this.f["c"].items))
+            return orig_free(I_, f_, this_, args_)
+        dom.free = free
         I.call(f, this, [y, Cell("rng")], force_body=True)
         obs = [(w, s, m, None) for (w, s, m) in dom.side]
         cs = [c.val for c in this.f["c"].items]
+        # uniformity on [0, r) rests on WHOLE-tuple rejection: a tuple that failed the test  y < r  is discarded entirely, so no digit of the accepted
+        # tuple may have been part of a rejected one (partial re-drawing skews the distribution although every value-level fact still holds)
+        stale = {d for t in tested[:-1] for d in t}
+        kept = [repr(PP(c)) for c in cs if repr(PP(c)) in stale]
+        obs.append(("no digit of the accepted tuple comes from a rejected tuple (whole-tuple rejection: the sample is uniform on [0, r))", "ok" if not kept else "fail",
+                    "digits kept across an outer retry: %s" % kept, None))
+        obs.append(("the four accepted digits are four different draws", "ok" if len({repr(PP(c)) for c in cs}) == 4 else "fail", repr(cs), None))
         inputs = set(dom.ranges)
         val = sum((PP(c) * X_ABS ** j for j, c in enumerate(cs)), Poly()) - PP(y.val)
         st, model = residual_check(dom, Lin({"one": val}), inputs)
@@ -299,7 +318,7 @@ _du0 = units
 
 
 def units():
-    return _du0() + [ScenUnit("PowersOfX::random: accepted sample is consistent and in range", ["C07", "C10"], gen_powers_random, targets=["PowersOfX::random"], max_paths=2000,
+    return _du0() + [ScenUnit("PowersOfX::random: accepted sample is consistent and in range", ["C07", "C10"], gen_powers_random, targets=["PowersOfX::random"], max_paths=20000,
                               contracts_used=["BigInt::multiply exact, add exact (C02)", "BigInt<64>::random: 8 arbitrary bytes", "BigInt::compare"],
                               assumes=["uniformity: digits <-> [0,r) is a bijection on the accepted set (one line, paper)", "termination of the rejection loops is not claimed"])]
 
